@@ -176,6 +176,7 @@ def directive_text(rng, word, codes):
 def gen_scenario(rng, force=None):
     """Returns a dict with everything needed for both sides."""
     force = force or {}
+    media = rng.choice(["ts", "ts", "js", "tsx"])
     eol = rng.choice(["\n", "\n", "\r\n"])
     L = Layout(eol)
     # configuration
@@ -228,7 +229,9 @@ def gen_scenario(rng, force=None):
             L.newline()
     if rng.random() < 0.2:
         # an import/export declaration as the first item (module item that is not a statement)
-        L.token(rng.choice(['import "m";', 'import * as ns from "m"; ns;', 'export {};', 'export default 1;']))
+        L.token(rng.choice(['import "m";', 'import * as ns from "m"; ns;', 'export {};', 'export default 1;'] + ([
+                            # decorators in front of `export`: the item's range starts at `export`, its comments sit in front of `@`
+                            '@dec export class K0 {}', '@dec @dec2() export default class {}', '@dec class K1 {}'] * 2 if media != "js" else [])))
         L.newline()
         if rng.random() < 0.4:
             w = rng.choice(words_file)
@@ -296,7 +299,7 @@ def gen_scenario(rng, force=None):
                 b = rng.choice([x for x in bounds if x >= a][:12])
                 ext_diags.append({"code": code, "start": a, "end": b, "msg": "ext%d" % i})
         ext = {"decline": False, "diags": ext_diags, "rules": decl}
-    sc = {"src": src, "media": rng.choice(["ts", "ts", "js", "tsx"]), "rules": rules, "fw": fw, "lw": lw, "ext": ext,
+    sc = {"src": src, "media": media, "rules": rules, "fw": fw, "lw": lw, "ext": ext,
           "parts": L.parts, "comments": L.comments, "first_token": L.first_token, "nls": L.nls, "debuggers": L.debuggers,
           "ext_diags": ext_diags if ext_mode == "some" else None, "decl": decl if ext_mode == "some" else None}
     return sc
